@@ -92,7 +92,8 @@ def execute(check, case, seed=None, replay=None):
     try:
         if sim.failure and sim.failure[0] in ('wall-timeout', 'task-stuck'):
             res['harness_error'] = f'{sim.failure}'
-        elif sim.failure and sim.failure[0] in ('step-limit', 'virtual-time-limit'):
+        elif sim.failure and sim.failure[0] in ('step-limit', 'virtual-time-limit') and \
+                check.deadlock_is_violation(sim, case, ctx) is None:
             res['harness_error'] = f'{sim.failure} (run did not terminate within its caps)'
         elif isinstance(main_task.exc, SystemExit):
             res['harness_error'] = 'main task exited: ' + ctx['stderr'][-1500:]
@@ -101,10 +102,10 @@ def execute(check, case, seed=None, replay=None):
             res['harness_error'] = 'main task raised: ' + ''.join(
                 traceback.format_exception(type(e), e, e.__traceback__))[-3000:]
         else:
-            if sim.failure and sim.failure[0] == 'deadlock':
+            if sim.failure and sim.failure[0] in ('deadlock', 'step-limit', 'virtual-time-limit'):
                 v = check.deadlock_is_violation(sim, case, ctx)
                 if v is None:
-                    res['harness_error'] = f'deadlock: {sim.failure[1]}'
+                    res['harness_error'] = f'{sim.failure[0]}: {sim.failure[1:]}'
                 else:
                     res['violations'].append(v)
             if not res['harness_error']:
